@@ -67,14 +67,14 @@ Init ==
   /\ lastw = MaxVal(Recs[tid])
   /\ cura = [e \in Req(Recs[tid]) |-> 0]
   /\ curs = [e \in Req(Recs[tid]) |-> 0]
-  /\ curn = [e \in Req(Recs[tid]) |-> 0]
+  /\ curn = [e \in AG(Recs[tid]).edges |-> 0]
 
 Start(x, s) ==
   /\ cur = IDLE /\ cnt < R.k
   /\ x \in 0..lastw
   /\ s \in (IF IsMPE(R) THEN 0..(SlackBudget(R) - tot) ELSE {0})
   /\ cur' = SRC /\ w' = x /\ sl' = s /\ lastw' = x /\ cnt' = cnt + 1 /\ tot' = tot + s /\ hit' = {}
-  /\ cura' = [e \in Req(R) |-> 0] /\ curs' = [e \in Req(R) |-> 0] /\ curn' = [e \in Req(R) |-> 0]
+  /\ cura' = [e \in Req(R) |-> 0] /\ curs' = [e \in Req(R) |-> 0] /\ curn' = [e \in AG(R).edges |-> 0]
   /\ UNCHANGED <<tid, acc, slk, sat>>
 
 Step(e) ==
@@ -96,8 +96,8 @@ Step(e) ==
   /\ (R.prodcap >= 0 /\ e \in Req(R)) => curs[e] + sl <= R.prodcap
   (* Second named deviation (KF-C07-repetition-cap): the walk models cap how often ONE walk may traverse an edge
      (r.repcaps: the caps the code itself computed, recorded from the model). *)
-  /\ curn' = IF R.repcaps # <<>> /\ e \in Req(R) THEN [curn EXCEPT ![e] = @ + 1] ELSE curn
-  /\ (R.repcaps # <<>> /\ e \in Req(R)) => curn[e] + 1 <= RepCap(R, e)
+  /\ curn' = IF R.repcaps # <<>> THEN [curn EXCEPT ![e] = @ + 1] ELSE curn       \* the code caps ignored edges too
+  /\ R.repcaps # <<>> => curn[e] + 1 <= RepCap(R, e)
   /\ UNCHANGED <<tid, w, sl, lastw, cnt, tot>>
 
 Next == (\E x \in 0..lastw : \E s \in 0..(IF IsMPE(R) THEN SlackBudget(R) ELSE 0) : Start(x, s))
